@@ -635,6 +635,28 @@ fn gen_c13(rng: &mut Prng, seed: u64, thorough: bool) -> Trace {
         }
         steps.push(Step::Recover { a: 0, b: 0, node: 0, alter_a: Alter::Raw { bytes: bytes.clone() }, alter_b: Alter::Raw { bytes: rng.bytes(n) } });
     }
+    // the 128 proof bytes with special contents (all zero, all ones, the flag bits of the compressed point encoding) in front of
+    // well-formed public values
+    for fill in [0x00u8, 0xff, 0x40, 0x80, 0xc0] {
+        let mut bytes = vec![fill; 128];
+        if fill == 0x40 || fill == 0x80 || fill == 0xc0 {
+            // flags live in the last byte of each encoded coordinate; everything else zero
+            bytes = vec![0u8; 128];
+            for k in [31usize, 95, 127] {
+                bytes[k] = fill;
+            }
+        }
+        for _ in 0..5 {
+            bytes.extend_from_slice(&fr_to_le32(&fr_from_le(&rng.bytes(32))));
+        }
+        let mut with_signal = bytes.clone();
+        with_signal.extend_from_slice(&0u64.to_le_bytes());
+        for via in 0..3u8 {
+            let b = if via == 0 { bytes.clone() } else { with_signal.clone() };
+            steps.push(Step::Deliver { msg: 0, node: 0, via, alter: Alter::Raw { bytes: b }, roots: Roots::Exact, reader: ReadPlan::clean() });
+        }
+        steps.push(Step::Recover { a: 0, b: 0, node: 0, alter_a: Alter::Raw { bytes: with_signal.clone() }, alter_b: Alter::None });
+    }
     // all-0xff fields (values >= p) and random non-canonical fields
     for f in 0..5usize {
         steps.push(Step::Deliver { msg: 0, node: 0, via: rng.below(3) as u8, alter: Alter::Field { f, bytes: vec![0xff; 32], note: "ff".into() }, roots: Roots::Exact, reader: ReadPlan::clean() });
